@@ -312,10 +312,10 @@ the reset -/
 theorem reset_is_fresh (eng : Engine) (c : Chart) (ops1 ops2 : List Op) :
     (run eng c (ops1 ++ .reset :: ops2)).a = (run eng c ops2).a ∧
     (run eng c (ops1 ++ .reset :: ops2)).past =
-      (run eng c ops2).past ++ (Tok.raw "reset" :: ((run eng c ops1).a.e.x.obs ++ (run eng c ops1).past)) := by
+      (run eng c ops2).past ++ (Tok.note "reset" :: ((run eng c ops1).a.e.x.obs ++ (run eng c ops1).past)) := by
   rw [run_append]
   simp only [List.foldl_cons, apply]
-  have h := foldl_past eng c ops2 { past := Tok.raw "reset" :: ((run eng c ops1).a.e.x.obs ++ (run eng c ops1).past), a := {} }
+  have h := foldl_past eng c ops2 { past := Tok.note "reset" :: ((run eng c ops1).a.e.x.obs ++ (run eng c ops1).past), a := {} }
   simpa [run] using h
 
 /-- the same for destruction and re-creation: `reset` and `destroy` are interchangeable -/
@@ -323,7 +323,7 @@ theorem reset_equals_recreate (eng : Engine) (c : Chart) (ops1 ops2 : List Op) :
     (run eng c (ops1 ++ .reset :: ops2)).a = (run eng c (ops1 ++ .destroy :: ops2)).a := by
   rw [run_append, run_append]
   simp only [List.foldl_cons, apply]
-  rw [(foldl_past eng c ops2 _).1, (foldl_past eng c ops2 { past := Tok.raw "destroyed" :: _, a := {} }).1]
+  rw [(foldl_past eng c ops2 _).1, (foldl_past eng c ops2 { past := Tok.note "destroyed" :: _, a := {} }).1]
 
 /-- **cancel leads to finished**: if the interpreter is quiescent (its last `step` returned IDLE,
 nothing is queued), `cancel()` makes the next `step` return CANCELLED and the one after that
@@ -331,7 +331,7 @@ FINISHED with every active state's exit handlers run once -/
 theorem cancel_when_idle (eng : Engine) (c : Chart) (e : EState)
     (hf : e.finished = false) (ht : e.topLevelFinal = false) (hp : e.pristine = false)
     (hs : e.spontaneous = false) (hst : e.stable = true) (hi : e.x.iq = []) (hq : e.x.eq = []) :
-    let e1 := { e with cancelled := true, x := (e.x.emit (.raw "cancel")).sendExt "" }
+    let e1 := { e with cancelled := true, x := (e.x.emit (.note "cancel")).sendExt "" }
     (engineStep eng c e1).2 = .cancelled ∧
     (engineStep eng c (engineStep eng c e1).1).2 = .finished := by
   intro e1
